@@ -3,6 +3,9 @@ NEXT Next
 CONSTANTS MaxNodes = 4
           LetDepth = 2
           Level = "thorough"
+          PerMid = 0
+          PerLet = 4
+          PerBig = 2
           Lanes = 64
 INVARIANT SpecSane
 CHECK_DEADLOCK FALSE
